@@ -44,6 +44,33 @@ def join (xs : List String) (sep : String) : String := sep.intercalate xs
 /-- Go `len(s)` for a string: number of bytes. -/
 def goLen (s : String) : Int := s.utf8ByteSize
 
+/-! ### byte offsets (`strings.Index`, `s[:i]`, `s[i:]`)
+
+Go strings are indexed by byte; the model works on the characters and counts their UTF-8 widths.  An offset that falls
+inside a multi-byte character has no counterpart in a Lean `String` (Go would produce an invalid UTF-8 string):
+`byteTake` then stops before that character and `byteDrop` keeps it — the translated code only slices at offsets
+`strings.Index` returned, which are character boundaries (`byteTake_indexChar`, `byteDrop_indexChar`). -/
+
+def indexCharAux (c : Char) : List Char → Nat → Int
+  | [], _ => -1
+  | x :: xs, n => if x = c then n else indexCharAux c xs (n + x.utf8Size)
+
+/-- `strings.Index(s, string(c))` for an ASCII `c`: the byte offset of the first `c`, or -1 -/
+def indexChar (s : String) (c : Char) : Int := indexCharAux c s.toList 0
+
+def byteTakeAux : List Char → Nat → List Char
+  | [], _ => []
+  | x :: xs, n => if x.utf8Size ≤ n then x :: byteTakeAux xs (n - x.utf8Size) else []
+
+def byteDropAux : List Char → Nat → List Char
+  | [], _ => []
+  | x :: xs, n => if n = 0 then x :: xs else if x.utf8Size ≤ n then byteDropAux xs (n - x.utf8Size) else x :: xs
+
+/-- `s[:i]` -/
+def byteTake (s : String) (i : Int) : String := String.ofList (byteTakeAux s.toList i.toNat)
+/-- `s[i:]` -/
+def byteDrop (s : String) (i : Int) : String := String.ofList (byteDropAux s.toList i.toNat)
+
 def maxInt64 : Int := 9223372036854775807
 def minInt64 : Int := -9223372036854775808
 
